@@ -186,8 +186,18 @@ def run_case(case):
                 for tw in (b"twin-a", b"twin-b"):
                     if tw in fs.entries[td]:
                         fs.remove(td, tw)
+            will_partial = rng.random() < 0.4
             if rnd > 0 and not (rnd == 1 and transition):
                 ops = scen.mutate(fs, rng, rng.randint(1, 8), hostile=0.2)
+                if will_partial and len(a.disks) > 1 and rng.random() < 0.6:
+                    # a copy (same name, size, time-stamp on another disk) is among the changes the incomplete sync will meet
+                    fl_ = [x for x in fs.files() if len(fs.entries[x[0]][x[1]][1]) > 0]
+                    if fl_:
+                        d_, s_ = rng.choice(fl_)
+                        d2_ = rng.choice([x for x in a.disks if x != d_])
+                        if scen._clear_path(fs, d2_, s_):
+                            fs.copy(d_, s_, d2_, s_)
+                            ops.append(("copy", d_, s_, d2_))
                 # several operations on the same path
                 if rng.random() < 0.5:
                     fl = fs.files()
@@ -210,7 +220,7 @@ def run_case(case):
                 res["violations"].append(("diff-exit-status-wrong:%s" % ("misses-change" if expect_diff else "reports-phantom-change"),
                                           "round %d: diff rc=%s, model expects %s (changed in model: %s; summary %s)" %
                                           (rnd, rd.rc, want_rc, evidence.jsonable(changed), evidence.jsonable([t[1:] for t in rd.tag("summary")][:8])), rep))
-            if expect_diff and rng.random() < 0.4:
+            if expect_diff and will_partial:
                 # a sync that does not finish (limited to some stripes, or stopped after the parity update before the final
                 # save) comes first: nothing else changes, and diff has to say that there is still something to do as long
                 # as a stripe holding a file has a block whose parity is not up to date
@@ -235,6 +245,21 @@ def run_case(case):
                     elif allclean and rp.rc == 0 and rdp.rc != 0:
                         res["violations"].append(("diff-exit-status-wrong:reports-phantom-change", "round %d: after sync %s completed everything diff rc=%s" %
                                                   (rnd, " ".join(pargs), rdp.rc), rep))
+                # ... and before the sync that completes the job some files are re-timed (same bytes): copies first of all,
+                # whose blocks the incomplete sync recorded with hashes borrowed from the original
+                nret = 0
+                for (d_, s_) in fs.files():
+                    e_ = fs.entries[d_][s_]
+                    if len(e_[1]) == 0 or fs.links_of(d_, s_):
+                        continue
+                    is_copy = any(d2 != d_ and fs.entries[d2].get(s_) is not None and fs.entries[d2][s_][0] == "file" and
+                                  (len(fs.entries[d2][s_][1]), fs.entries[d2][s_][2]) == (len(e_[1]), e_[2]) for d2 in a.disks)
+                    if rng.random() < (0.8 if is_copy else 0.08):
+                        fs.set_mtime(d_, s_)
+                        nret += 1
+                if nret:
+                    hist.append(("retimed-after-incomplete-sync", nret))
+                    cur_sig = signature(fs, a)
             rs = a.cmd("sync", "-E", "-Z", *opts, variant=variant)
             for s_ in rs.san:
                 res["violations"].append(("sanitizer:" + A.san_key(s_), s_[:2500], rep))
@@ -265,7 +290,7 @@ def main(tier, seed, replay, jobs, scale):
         import json
         cases = [tuple(json.load(open(replay))["replay"]["case"])]
     else:
-        n = int((120 if tier == "quick" else 3000) * scale)
+        n = int((480 if tier == "quick" else 3000) * scale)
         cases = [(seed, i, tier) for i in range(n)]
     par.absorb(run, par.run_cases(run_case, cases, jobs))
     run.assumptions += ["directory-only changes do not make diff return 2; symlink time-stamps are not recorded",
